@@ -36,6 +36,22 @@ def local_cases(draw, tier, families):
     c = dict(dim=dim, cost=spec, x0=x0,
              xtol=draw(st.sampled_from([1e-4, 1e-4, 1e-2, 1e-6])), ftol=draw(st.sampled_from([1e-4, 1e-4, 1e-2, 1e-7])),
              maxiter=draw(st.sampled_from([None, None, 5, 30, 100])), maxfun=draw(st.sampled_from([None, None, 20, 80])))
+    if draw(st.integers(0, 2)) == 0:
+        c['adaptive'] = True             # Nelder-Mead only
+    if dim >= 2 and draw(st.integers(0, 2)) == 0:
+        # Powell only: a caller-supplied initial direction set, also integer-typed (as a user writes it)
+        kind = draw(st.sampled_from(['int-eye', 'int-rot', 'int-rot', 'float-rot']))
+        D = [[1 if i == j else 0 for j in range(dim)] for i in range(dim)]
+        if kind != 'int-eye':
+            for i in range(dim):
+                for j in range(dim):
+                    if i != j and draw(st.integers(0, 2)) == 0:
+                        D[i][j] = draw(st.sampled_from([1, -1, 2]))      # unit lower/upper entries: stays non-singular often enough
+            if abs(np.linalg.det(np.array(D, float))) < 0.5:
+                D = [[1 if i == j else 0 for j in range(dim)] for i in range(dim)]; D[0][dim - 1] = 1
+        if kind == 'float-rot':
+            D = [[float(v) * 0.5 for v in row] for row in D]
+        c['direc'] = D; c['direc_kind'] = kind
     return c
 
 
@@ -48,8 +64,10 @@ def run_nm(case, ctx):
     # mystic writes scipy's zdelt = 0.00025 as (0.05**2)*0.1, which is one ulp larger: with that value the
     # operation sequences are identical and the comparison is exact
     trace = []
+    adaptive = bool(case.get('adaptive'))
     rx, rf, rit, rcalls, rwarn = refs.nelder_mead(f, x0, case['xtol'], case['ftol'], case['maxiter'], case['maxfun'], trace,
-                                                  zdelt=(0.05 ** 2) * 0.1)
+                                                  zdelt=(0.05 ** 2) * 0.1, adaptive=adaptive)
+    if adaptive: ctx.label('adaptive')
     ctx.label('cost:' + case['cost']['fam'])
     if haszero: ctx.label('x0-has-zero')
     # --- class API, step by step
@@ -62,7 +80,7 @@ def run_nm(case, ctx):
     s.SetObjective(cost)
     step = 0
     while True:
-        msg = s.Step()
+        msg = s.Step(adaptive=True) if (adaptive and step == 0) else s.Step()      # the setting is sticky
         step += 1
         if step >= 2:
             if step - 2 >= len(trace):
@@ -78,6 +96,23 @@ def run_nm(case, ctx):
             break
     ctx.expect(int(s.generations) == rit and int(s.evaluations) == rcalls and cost.ncalls() == rcalls, 'C08.nm_counts',
                lambda: dict(api='class', generations=int(s.generations), ref_iterations=rit, evaluations=int(s.evaluations), ref_funcalls=rcalls))
+    kinds = set(t[2] for t in trace[1:])
+    if adaptive:
+        # fmin has no such option: second opinion from the installed scipy's minimize
+        ctx.expect(np.array_equal(np.asarray(s.bestSolution, float), rx) and float(s.bestEnergy) == float(rf), 'C08.nm_result',
+                   lambda: dict(api='class', x=np.asarray(s.bestSolution).tolist(), ref_x=rx.tolist(), fval=float(s.bestEnergy), ref_fval=float(rf)))
+        if rwarn != 1 and not haszero:
+            import scipy.optimize as so
+            r = so.minimize(f, x0, method='Nelder-Mead', options=dict(xatol=case['xtol'], fatol=case['ftol'], maxiter=case['maxiter'],
+                                                                       maxfev=case['maxfun'], adaptive=True))
+            ctx.expect(int(s.generations) == int(r.nit) and int(s.evaluations) == int(r.nfev), 'C08.nm_scipy',
+                       lambda: dict(adaptive=True, iter=int(s.generations), funcalls=int(s.evaluations), scipy_iter=int(r.nit), scipy_funcalls=int(r.nfev)))
+            ctx.expect(np.allclose(np.asarray(s.bestSolution, float), r.x, rtol=1e-12, atol=1e-300), 'C08.nm_scipy',
+                       lambda: dict(adaptive=True, x=np.asarray(s.bestSolution).tolist(), scipy_x=np.asarray(r.x).tolist()))
+            ctx.label('vs-installed-scipy')
+        if 'shrink' in kinds: ctx.label('shrink'); ctx.label('adaptive-shrink-dim%d' % case['dim'])
+        ctx.nontrivial(rit >= 10)
+        return
     # --- fmin wrapper
     x, fv, it, fc, wf = ms.fmin(f, x0, xtol=case['xtol'], ftol=case['ftol'], maxiter=case['maxiter'], maxfun=case['maxfun'],
                                 full_output=1, disp=0)
@@ -127,7 +162,10 @@ def run_powell(case, ctx):
         return f(x)
     events = []
     ref = []
-    for rec in refs.powell(fc, x0, brent, xtol=xtol, maxsweeps=nsweeps, events=events):
+    direc = case.get('direc')            # given to mystic as written (possibly integers), to the reference as floats
+    rdirec = None if direc is None else np.array(direc, float)
+    if direc is not None: ctx.label('direc:' + case.get('direc_kind', '?'))
+    for rec in refs.powell(fc, x0, brent, xtol=xtol, maxsweeps=nsweeps, events=events, direc=rdirec):
         ref.append(rec + (calls[0],))
     # --- class API, step by step (exact: same operations, same Brent)
     lab.reset_registry(); lab.seed_rng(0)
@@ -138,7 +176,10 @@ def run_powell(case, ctx):
     s.SetEvaluationLimits(generations=nsweeps + 2)
     s.xtol = xtol
     s.SetObjective(cost)
-    s.Step()
+    if direc is None:
+        s.Step()
+    else:
+        s.Step(direc=[list(r) for r in direc])     # sticky
     for k in range(len(ref)):
         s.Step()
         rx, rf, rd, rfx, rc = ref[k]
@@ -158,14 +199,15 @@ def run_powell(case, ctx):
     calls[0] = 0
     fired_at_1 = False
     last = None
-    for k, (rx, rf, rd, rfx) in enumerate(refs.powell(fc, x0, brent, xtol=xtol, maxsweeps=10 ** 6), start=1):
+    for k, (rx, rf, rd, rfx) in enumerate(refs.powell(fc, x0, brent, xtol=xtol, maxsweeps=10 ** 6, direc=rdirec), start=1):
         last = (rx, rf, k, calls[0])
         conv = 2.0 * (rfx - rf) <= ftol * (abs(rfx) + abs(rf)) + 1e-20
         if k == 1 and conv: fired_at_1 = True
         if k >= 2 and conv: break            # NormalizedChangeOverGeneration(ftol, 2) needs a history longer than 2
         if calls[0] >= mf or k >= mi: break
         if k > 400: break
-    x, fv, it, fcalls, wf, direc = ms.fmin_powell(f, x0, xtol=xtol, ftol=ftol, maxiter=maxiter, maxfun=maxfun, full_output=1, disp=0)
+    pkw = {} if direc is None else dict(direc=[list(r) for r in direc])
+    x, fv, it, fcalls, wf, direc_out = ms.fmin_powell(f, x0, xtol=xtol, ftol=ftol, maxiter=maxiter, maxfun=maxfun, full_output=1, disp=0, **pkw)
     rx, rf, rk, rc = last
     ctx.expect(int(it) == rk and int(fcalls) == rc, 'C08.powell_counts',
                lambda: dict(api='fmin_powell', iter=int(it), funcalls=int(fcalls), ref_iter=rk, ref_funcalls=rc))
@@ -175,7 +217,8 @@ def run_powell(case, ctx):
     ctx.expect(int(wf) == want_wf, 'C08.powell_counts', lambda: dict(warnflag=int(wf), expected=want_wf, iter=rk, funcalls=rc, maxiter=mi, maxfun=mf))
     if not fired_at_1 and maxfun is None:
         # second opinion: the vendored scipy 0.6 fmin_powell (same stop rule from iteration 2 on)
-        ox, ofv, od, oit, ofc, owf = ref060(f, x0, xtol=xtol, ftol=ftol, maxiter=maxiter, full_output=1, disp=0)
+        okw = {} if direc is None else dict(direc=np.array(direc, float))
+        ox, ofv, od, oit, ofc, owf = ref060(f, x0, xtol=xtol, ftol=ftol, maxiter=maxiter, full_output=1, disp=0, **okw)
         ctx.expect(int(oit) == int(it) and np.allclose(np.atleast_1d(ox), np.atleast_1d(x), rtol=1e-12, atol=1e-12), 'C08.powell_scipy060',
                    lambda: dict(iter=int(it), scipy060_iter=int(oit), x=np.atleast_1d(x).tolist(), scipy060_x=np.atleast_1d(ox).tolist()))
         ctx.label('vs-scipy060')
